@@ -271,7 +271,16 @@ def observe_packet(defn_obj, d, pkt):
     """parse_ccsds_packet on one packet. Returns the obs record of Trace_Decode."""
     from space_packet_parser import packets
     from space_packet_parser.exceptions import UnrecognizedPacketTypeError
-    p = packets.CCSDSPacket(raw_data=bytes(pkt))
+    # the raw packet is decoded once beforehand (as a caller that first looks at a packet and then decodes it for good would): what is
+    # observed is the second decode of the same raw packet object, which must not know about the first
+    raw = packets.RawPacketData(bytes(pkt))
+    with warnings.catch_warnings():
+        warnings.simplefilter("ignore")
+        try:
+            defn_obj.parse_ccsds_packet(packets.CCSDSPacket(raw_data=raw))
+        except Exception:  # noqa: BLE001
+            pass
+    p = packets.CCSDSPacket(raw_data=raw)
     with warnings.catch_warnings():
         warnings.simplefilter("ignore")
         try:
